@@ -5,6 +5,15 @@
 impl Mutex<u32> {
     #[verifier::external_body]
     pub fn new(v: u32) -> (r: Mutex<u32>) { unimplemented!() }
+    /// try_lock: fails when another task holds the cell at this instant (nothing is read or written)
+    #[verifier::external_body]
+    pub fn try_lock(&self, Tracked(w): Tracked<&mut World>) -> (r: ::std::result::Result<&mut u32, TryLockError>)
+        requires old(w).height >= old(w).height_read,
+        ensures match r {
+            Ok(g) => *g as int >= old(w).height && *final(w) == (World { height: *final(g) as int, height_read: *g as int, ..*old(w) }),
+            Err(_) => *final(w) == *old(w),
+        }
+    { unimplemented!() }
     #[verifier::external_body]
     pub fn lock(&self, Tracked(w): Tracked<&mut World>) -> (g: &mut u32)
         requires
@@ -65,3 +74,4 @@ impl mpsc::Receiver<()> {
 // been evaluated (the contract of poll_forever: the height never decreases); spawning itself is
 // not under contract.
 pub struct JoinHandle<T> { pub p: core::marker::PhantomData<T> }
+pub struct TryLockError { pub _p: u8 }
